@@ -218,6 +218,43 @@ pub fn generate(g: &mut Gen, thorough: bool) {
             emit(g, &p, dir, 1, "pairs");
         }
     }
+    // 2b. ill-formed sub-commands are rejected at instantiation, well-formed ones accepted
+    let mut shapes: Vec<(bool, String)> = vec![];
+    for key in ["push", "pop", "flip"] {
+        for bad in ["0", "5", "-1", "1.5", "2.25", "3.999", "1:30", "0.5", "4.0001", "1,2,2.5", "1,5", "0,1", "1e0.5", "NaN", "inf", "-0.5", "1,2,3,4,4.5", "0:30"] {
+            shapes.push((false, format!("stack {key}={bad}")));
+        }
+        for good in ["1", "4", "1,2,3,4", "4,4,4", "2.0", "1e0", "1,1,1,1,1"] {
+            shapes.push((true, format!("stack {key}={good}")));
+        }
+    }
+    for key in ["roll", "unroll"] {
+        for bad in ["2", "1.5,1", "3,0.5", "2,2", "2,3", "3,-3", "1,2,3", "-2.5,1", "NaN,1", "3,NaN"] {
+            shapes.push((false, format!("stack {key}={bad}")));
+        }
+        for good in ["3,2", "3,-2", "8,7", "2,1", "2,0", "3.0,1.0"] {
+            shapes.push((true, format!("stack {key}={good}")));
+        }
+    }
+    for bad in ["stack", "stack push=1 pop=1", "stack swap drop", "stack roll=2,1 swap", "stack push", "stack bogus=1"] {
+        shapes.push((false, bad.to_string()));
+    }
+    for good in ["stack swap", "stack drop"] {
+        shapes.push((true, good.to_string()));
+    }
+    for (ok, def) in &shapes {
+        let class = if *ok { "wellformed" } else { "illformed" };
+        g.push(op_line("default", &[], &[], def, "apply", "F", &probe_data(1)), &format!("shape-{class}"), true);
+        // inside a pipeline as well (a rejected step rejects the pipeline)
+        g.push(op_line("default", &[], &[], &format!("stack push=1,2,3,4,1,2,3,4 | {def} | addone"), "apply", "F", &probe_data(1)), &format!("shape-{class}-step"), true);
+    }
+    // the documented rules, against the implementation (the model decides the rest by agreement)
+    for (ok, def) in &shapes {
+        let certain = !(def.contains("roll=2,2") || def.contains("roll=3,-3") || def.contains("roll=2,3") || def.contains("1,1,1,1,1") || def.contains("1,2,3,4,4.5") || def.contains("roll=2,0") || def.contains("-2.5,1"));
+        if certain {
+            g.push(format!("S_C12R\t{}\t{}", if *ok { 1 } else { 0 }, crate::wire::escape(def)), "oracle-shape", true);
+        }
+    }
     // 3. random long programs, interleaved with value-changing steps, operand sets of size 0..50
     let nrandom = if thorough { 40000 } else { 2500 };
     for _ in 0..nrandom {
